@@ -353,7 +353,7 @@ def fast_subset_text(prog, rng):
         elif it["k"] == "assign":
             stm.append("assign" + W() + it["lhs"] + w() + "=" + w() + opnd(it["rhs"]) + w() + ";")
         else:
-            cs = ["." + p + w() + ("()" if e is None else "(" + w() + opnd(e) + w() + ")") for p, e in it["conns"]]
+            cs = ["." + w() + p + w() + ("()" if e is None else "(" + w() + opnd(e) + w() + ")") for p, e in it["conns"]]
             stm.append(it["type"] + W() + it["inst"] + w() + "(" + w() + ("," + W()).join(cs) + w() + ");")
     rng.shuffle(stm)
     ports = []
